@@ -392,7 +392,7 @@ def main(ctx):
     proof_gate(ctx, gen_modules=[])
     rng = ctx.rng
     n = ctx.n(120, 2500)
-    for k in range(n):
+    for k in ctx.loop(n):
         prof = rng.choice(['small', 'small', 'med', 'limb'])
         style = rng.choice(['verilog', 'verilog', 'verilog-adv', 'plain', 'plain'])
         d = gen.rand_design(rng, profile=prof, ops=OPS, raw=False, name_style=style, max_total=200,
